@@ -112,6 +112,7 @@ type Conn struct {
 // NewConn returns a connection that will deliver in.
 func NewConn(in []byte) *Conn { return &Conn{In: in, AtEnd: FailEOF, FailStart: -1} }
 
+//go:norace
 func (c *Conn) decide(kind OpKind) (Fault, int) {
 	idx := len(c.Ops)
 	if c.Decide == nil {
@@ -120,6 +121,7 @@ func (c *Conn) decide(kind OpKind) (Fault, int) {
 	return c.Decide(c, kind, idx), idx
 }
 
+//go:norace
 func (c *Conn) log(op Op) *Op {
 	op.WDL, op.RDL = c.WDL, c.RDL
 	c.Ops = append(c.Ops, op)
@@ -138,11 +140,16 @@ func faultErr(f Fault) error {
 }
 
 // Unread returns the bytes not yet handed out.
+//
+//go:norace
 func (c *Conn) Unread() []byte { return c.In[c.inPos:] }
 
 // ReadPos is the number of bytes handed out so far.
+//
+//go:norace
 func (c *Conn) ReadPos() int { return c.inPos }
 
+//go:norace
 func (c *Conn) Read(p []byte) (int, error) {
 	f, idx := c.decide(OpRead)
 	if c.Hook != nil {
@@ -206,6 +213,7 @@ func (c *Conn) Read(p []byte) (int, error) {
 	return n, err
 }
 
+//go:norace
 func (c *Conn) Write(p []byte) (int, error) {
 	f, idx := c.decide(OpWrite)
 	if c.Hook != nil {
@@ -241,6 +249,7 @@ func (c *Conn) Write(p []byte) (int, error) {
 	return n, err
 }
 
+//go:norace
 func (c *Conn) Close() error {
 	f, idx := c.decide(OpClose)
 	if c.Hook != nil {
@@ -255,6 +264,7 @@ func (c *Conn) Close() error {
 	return err
 }
 
+//go:norace
 func (c *Conn) setDL(kind OpKind, t time.Time) error {
 	f, idx := c.decide(kind)
 	if c.Hook != nil {
@@ -283,8 +293,13 @@ func (c *Conn) setDL(kind OpKind, t time.Time) error {
 	return err
 }
 
-func (c *Conn) SetDeadline(t time.Time) error      { return c.setDL(OpSetDeadline, t) }
-func (c *Conn) SetReadDeadline(t time.Time) error  { return c.setDL(OpSetReadDeadline, t) }
+//go:norace
+func (c *Conn) SetDeadline(t time.Time) error { return c.setDL(OpSetDeadline, t) }
+
+//go:norace
+func (c *Conn) SetReadDeadline(t time.Time) error { return c.setDL(OpSetReadDeadline, t) }
+
+//go:norace
 func (c *Conn) SetWriteDeadline(t time.Time) error { return c.setDL(OpSetWriteDeadline, t) }
 
 type addr string
@@ -292,10 +307,15 @@ type addr string
 func (a addr) Network() string { return "sim" }
 func (a addr) String() string  { return string(a) }
 
-func (c *Conn) LocalAddr() net.Addr  { return addr("local") }
+//go:norace
+func (c *Conn) LocalAddr() net.Addr { return addr("local") }
+
+//go:norace
 func (c *Conn) RemoteAddr() net.Addr { return addr("remote") }
 
 // CountOps returns how many ops of a kind were logged.
+//
+//go:norace
 func (c *Conn) CountOps(k OpKind) int {
 	n := 0
 	for _, o := range c.Ops {
